@@ -1,4 +1,5 @@
 from datetime import datetime
+from threading import RLock
 from typing import Any, TypeVar, Union
 
 from reactivex import Observable, abc, from_future, throw, typing
@@ -7,7 +8,7 @@ from reactivex.disposable import (
     SerialDisposable,
     SingleAssignmentDisposable,
 )
-from reactivex.internal import curry_flip, is_future
+from reactivex.internal import curry_flip, is_future, synchronized
 from reactivex.scheduler import TimeoutScheduler
 
 _T = TypeVar("_T")
@@ -51,6 +52,9 @@ def timeout_(
 
         switched = [False]
         _id = [0]
+        # The timer fires on the scheduler's thread: who wins (timer or source
+        # notification) must be decided atomically
+        lock = RLock()
 
         original = SingleAssignmentDisposable()
         subscription = SerialDisposable()
@@ -60,6 +64,7 @@ def timeout_(
         def create_timer() -> None:
             my_id = _id[0]
 
+            @synchronized(lock)
             def action(scheduler: abc.SchedulerBase, state: Any = None):
                 switched[0] = _id[0] == my_id
                 timer_wins = switched[0]
@@ -75,6 +80,7 @@ def timeout_(
 
         create_timer()
 
+        @synchronized(lock)
         def on_next(value: _T) -> None:
             send_wins = not switched[0]
             if send_wins:
@@ -82,12 +88,14 @@ def timeout_(
                 observer.on_next(value)
                 create_timer()
 
+        @synchronized(lock)
         def on_error(error: Exception) -> None:
             on_error_wins = not switched[0]
             if on_error_wins:
                 _id[0] += 1
                 observer.on_error(error)
 
+        @synchronized(lock)
         def on_completed() -> None:
             on_completed_wins = not switched[0]
             if on_completed_wins:
